@@ -196,6 +196,12 @@ impl TelemetryUpdate {
         self.packets_dropped += 1;
         self.packets_dropped_serializer += 1;
     }
+
+    /// Verification hook: `(counter_points, gauge_points, histogram_points)` recorded so far.
+    #[cfg(metrics_verif)]
+    pub fn verif_points(&self) -> (u64, u64, u64) {
+        (self.counter_points, self.gauge_points, self.histogram_points)
+    }
 }
 
 macro_rules! _telemetry_tags {
